@@ -382,8 +382,10 @@ def sweepCase (B : SweepBlock) (r : Line3 Q) (implFe implIs : Bool) (a : SweepAc
     nz d && !(1 < qabs d || (qabs (hi - p) < T' * qabs d * slack && qabs (lo - p) < T' * qabs d * slack))
   let tiny (d : Q) : Bool := nz d && T' * qabs d < 1
   let ovfA (p d lo hi : Q) : Bool := nz d && far p lo hi ≥ thr
-  let faceA (p d lo hi : Q) : Bool := failS p d lo hi && far p lo hi * 2 ≥ T'
-  let allTinyA (p d lo hi : Q) : Bool := !nz d || (tiny d && failS p d lo hi)
+  -- a failing axis is face-caused when |face - pos| is of the order of TMAX and the direction is not tiny;
+  -- otherwise it fails because the quotient by the (small) direction component overflows: dir-caused
+  let faceA (p d lo hi : Q) : Bool := failS p d lo hi && far p lo hi * 2 ≥ T' && !tiny d
+  let allTinyA (p d lo hi : Q) : Bool := !nz d || (failS p d lo hi && !faceA p d lo hi)
   let px := r.pos.x; let py := r.pos.y; let pz := r.pos.z
   let dx := r.dir.x; let dy := r.dir.y; let dz := r.dir.z
   let ovf := ovfA px dx b.min.x b.max.x || ovfA py dy b.min.y b.max.y || ovfA pz dz b.min.z b.max.z
